@@ -1935,7 +1935,7 @@ impl Server {
         }
         
         if let Some(rdb_engine) = &self.rdb_engine {
-            match rdb_engine.save(&self.storage) {
+            match rdb_engine.save_exclusive(&self.storage) {
                 Ok(_) => {
                     if let Some(monitor) = &self.storage_monitor {
                         monitor.reset_changes();
